@@ -230,6 +230,52 @@ func databaseList(t *rapid.T, name string, prefix string, n int) []string {
 	}
 }
 
+// OverlappingDatabases returns a databases list of pairwise different entries
+// that expands to exactly n names of which at least two are equal: a range and
+// a plain name inside it, two overlapping ranges, or the same names reached
+// through different spellings of a range. nil when n is too small (n < 3).
+func OverlappingDatabases(t *rapid.T, name, prefix string, n int) []string {
+	if n < 3 || n > 64 {
+		return nil
+	}
+	lo := rapid.IntRange(0, 3).Draw(t, name+"_lo")
+	rng := func(pre string, a, b int) string { return fmt.Sprintf("%s[%d-%d]", pre, a, b) }
+	pre := prefix + "_m_"
+	forms := []string{"range_name", "name_range"}
+	if n >= 4 {
+		forms = append(forms, "range_range", "spelling_prefix", "spelling_zeros", "range_range_names")
+	}
+	var out []string
+	switch pick(t, name+"_form", forms) {
+	case "range_name": // [lo .. lo+n-2] plus one of its members
+		k := lo + rapid.IntRange(0, n-2).Draw(t, name+"_k")
+		out = []string{rng(pre, lo, lo+n-2), fmt.Sprintf("%s%d", pre, k)}
+	case "name_range":
+		k := lo + rapid.IntRange(0, n-2).Draw(t, name+"_k")
+		out = []string{fmt.Sprintf("%s%d", pre, k), rng(pre, lo, lo+n-2)}
+	case "range_range": // a elements, then n-a elements starting inside the first range
+		a := rapid.IntRange(2, n-2).Draw(t, name+"_a")
+		start := lo + rapid.IntRange(0, a-1).Draw(t, name+"_s")
+		out = []string{rng(pre, lo, lo+a-1), rng(pre, start, start+n-a-1)}
+	case "range_range_names": // two overlapping two-element ranges padded with distinct plain names
+		out = []string{rng(pre, lo, lo+1), rng(pre, lo+1, lo+2)}
+		for i := 0; len(out) < n-2; i++ {
+			out = append(out, fmt.Sprintf("%sextra%d", pre, i))
+		}
+	case "spelling_prefix": // db_[10-11] and db_1[0-1] are the same two names
+		out = []string{rng(pre, 10, 11), rng(pre+"1", 0, 1)}
+		for i := 0; len(out) < n-2; i++ {
+			out = append(out, fmt.Sprintf("%sextra%d", pre, i))
+		}
+	default: // spelling_zeros: [01-02] and [1-2]
+		out = []string{fmt.Sprintf("%s[01-02]", pre), rng(pre, 1, 2)}
+		for i := 0; len(out) < n-2; i++ {
+			out = append(out, fmt.Sprintf("%sextra%d", pre, i))
+		}
+	}
+	return out
+}
+
 func genLocations(t *rapid.T, name string, k int, allowZero bool) []int {
 	loc := make([]int, k)
 	for i := range loc {
@@ -528,7 +574,8 @@ func Mutate(t *rapid.T, ns *models.Namespace, tag string) string {
 			"table_case_dup", "table_case_flip", "parent_case_flip", "linked_missing", "linked_to_linked", "linked_self", "linked_case_clash",
 			"padding_short", "padding_begin_end", "type_unknown", "type_default", "row_limit_zero", "murmur_vbt", "murmur_seed", "hash_slice_bad",
 			// the location edits are the heart of the property: weight them
-			"loc_zero", "loc_negative", "loc_negative", "table_case_dup", "table_case_dup", "padding_short", "db_dup")
+			"loc_zero", "loc_negative", "loc_negative", "table_case_dup", "table_case_dup", "padding_short", "db_dup",
+			"db_overlap", "db_overlap", "db_overlap")
 	}
 	k := pick(t, tag+"_kind", kinds)
 	idx := func(n int, name string) int {
@@ -647,6 +694,20 @@ func Mutate(t *rapid.T, ns *models.Namespace, tag string) string {
 				rule.Databases = append(rule.Databases, fmt.Sprintf("%s_%d", rule.DB, i))
 			}
 			rule.Databases[n-1] = rule.Databases[0]
+		}
+	case "db_overlap":
+		// entries that are pairwise different as written but name the same database after expansion
+		var cands []*models.Shard
+		for _, r := range nonLinked { // prefer a rule whose database list matters
+			if (strings.HasPrefix(r.Type, "mycat_") || r.Type == models.ShardGlobal) && sum(r.Locations) >= 3 {
+				cands = append(cands, r)
+			}
+		}
+		if len(cands) > 0 {
+			rule = pick(t, tag+"_ovr", cands)
+		}
+		if dbs := OverlappingDatabases(t, tag+"_ov", rule.DB, sum(rule.Locations)); dbs != nil {
+			rule.Databases = dbs
 		}
 	case "db_on_plain_rule":
 		rule.Databases = []string{rule.DB + "_[0-3]"}
